@@ -438,8 +438,29 @@ func htmlAll(c *corpus, r *rng, tier string, scale int) *inputSet {
 		}
 		s.add("mutation", x)
 	}
+	// delimited constructs: every short body over the terminator alphabet (incl. NUL, decoys,
+	// truncated terminators) behind every construct opener: end of input inside every construct
+	cdepth := 3
+	if tier == "thorough" {
+		cdepth = 4
+	}
+	exhaustive(constructBodyAlphabet, cdepth, func(body string) {
+		for _, o := range constructOpeners {
+			s.add("construct-bodies", o+body)
+		}
+	})
+	// sequences of whole tags: open / close / self-closing, with and without attributes, so that
+	// state carried from one tag to the next (close-tag flag, attribute type) is exercised
+	exhaustive(tagTemplates, 3, func(x string) { s.add("tag-sequences", x) })
+	for i := 0; i < nrand/4; i++ {
+		s.add("tag-sequences-random", randomSeq(r, tagTemplates, 2, 6))
+	}
 	return s
 }
+
+var constructBodyAlphabet = []string{"%", ">", "]", "-", "!", "\x00", "a", "\"", "'", "`", "<", " "}
+var constructOpeners = []string{"<%", "<![CDATA[", "<!--", "<!", "<?", "<!doctype ", "<a b='", "<a b=\"", "<a b=`", "x<!--"}
+var tagTemplates = []string{"<a>", "</a>", "</a b>", "</a b=c>", "<a b>", "<a b=c>", "<a/>", "<a b='c'/>", "<script>", "</script x>", "x", ">", "<c d=e f>", "</", "<a b=\"c\">"}
 
 func caseMix(r *rng, s string) string {
 	b := []byte(s)
